@@ -143,7 +143,8 @@ def execute(family, cfg, chooser, *, max_steps=None, real_timeout=120.0):
       # with function-entry pre-emption one operation costs many more steps
       spin_k=simcfg.get('spin_k', 300) * (
           40 if simcfg.get('fine') == 'line' else 12 if simcfg.get('fine') else 1),
-      real_timeout=real_timeout,
+      # the hard limit (the process exits) must come after the soft one
+      real_timeout=max(real_timeout, 1.8 * WALL_LIMIT) if WALL_LIMIT else real_timeout,
   )
   # False, True (pre-emption at function entries of the library's modules) or
   # 'line' (at every line of them)
